@@ -14,6 +14,7 @@ import Usid.Driver.SliceTo
 import Usid.Driver.Reduce
 import Usid.Driver.Csv
 import Usid.Driver.Empty
+import Usid.Driver.Translate
 /-! Line-protocol driver over the hand-written models: one JSON request per line on stdin,
     one JSON response per line on stdout. -/
 namespace Usid.Driver
@@ -36,7 +37,8 @@ def handlers : List (String × (Json → R Json)) := [
   ("sliceto.run", hSliceTo),
   ("reduce.run", hReduce),
   ("csv.lines", hCsvLines), ("csv.fs", hCsvFs),
-  ("empty.run", hEmptyRun)
+  ("empty.run", hEmptyRun),
+  ("trans.sidpy", hTransSidpy), ("trans.image", hTransImage), ("trans.array", hTransArray)
 ]
 
 def respond (tbl : List (String × (Json → R Json))) (line : String) : String :=
